@@ -1,7 +1,7 @@
 import corr_text
 import oracle_misc
 
-SPEC = {'statement': 'roles_by_number (file roles follow the numbered keys, not line order), imagery_order / group names from (polarisation, scan) injective, leader record groups, root attrs (C16)', 'rule': 'oracle: products with 1-8 images over polarisation x scan, with/without map projection, summary lines as-is / fully shuffled / reversed: node paths and order, per-group pixel identity with the right file, root and image attributes; distinct = distinct (image set, order, projection)', 'partial': "DataTree.from_dict / Dataset.set_coords are xarray's", 'assumptions': []}
+SPEC = {'statement': 'roles_by_number (file roles follow the numbered keys, not line order), imagery_order / group names from (polarisation, scan) injective, metadata_children (for every leader file that parses /metadata has exactly the record groups present in the leader; map_projection iff a map-projection record is present), root attrs (C16)', 'rule': 'oracle: products with 1-8 images over polarisation x scan, with/without map projection, summary lines as-is / fully shuffled / reversed, opened uncached and through a freshly created cache: node paths and order, per-group pixel identity with the right file, root and image attributes; distinct = distinct (image set, order, projection)', 'partial': "DataTree.from_dict / Dataset.set_coords are xarray's", 'assumptions': []}
 
 
 def corr_decoders(seed, tier):
